@@ -700,7 +700,7 @@ class Envelope:
             raise ValueError("Too many states given")
 
         for s in states_list:
-            if s not in [self.polarization, self.fock]:
+            if s is not self.polarization and s is not self.fock:
                 raise ValueError(
                     "Given states have to be members of the envelope, "
                     "use env.fock and env.polarization"
